@@ -175,6 +175,16 @@ def addr_case(outs, user_opt, timeout, other_errno, tsrc="settimeout", fam="v4")
             elif tsrc == "setdefaulttimeout":
                 lib.websocket.setdefaulttimeout(timeout)
                 ws = lib.websocket.create_connection("ws://multi.example/", sockopt=sockopt)
+            elif tsrc == "app":
+                # through WebSocketApp: socket options to run_forever, the timeout from the process-wide default
+                lib.websocket.setdefaulttimeout(timeout)
+                env.install_selectors()
+                try:
+                    ws, err = env.open_via("app", "ws://multi.example/", {}, {"sockopt": sockopt})
+                finally:
+                    env.uninstall_selectors()
+                if err is not None:
+                    raise err
             elif tsrc == "connect-option":
                 ws = lib.websocket.WebSocket(sockopt=sockopt)
                 ws.connect("ws://multi.example/", timeout=timeout)
@@ -232,7 +242,10 @@ def addr_case(outs, user_opt, timeout, other_errno, tsrc="settimeout", fam="v4")
                 return (dict(sigk, kind="sockopt-not-applied", user=opt in sockopt), "%s: socket for %r lacks option %r at connect time (has %r)" % (label, s.address, opt, pre["opts"]))
     # no leak
     open_ = net.open_socks()
-    if out is None:
+    if out is None and tsrc == "app":
+        if open_:
+            return (dict(sigk, kind="socket-leak"), "%s: %d sockets open after the run ended" % (label, len(open_)))
+    elif out is None:
         if len(open_) != 1 or ws is None or open_[0] is not ws.sock:
             return (dict(sigk, kind="socket-leak"), "%s: %d sockets open after success" % (label, len(open_)))
     elif open_:
@@ -387,7 +400,7 @@ def run_task(desc):
             for user_opt in (False, True):
                 for timeout in (None, 5):
                     for other in (OTHERS if 3 in outs else OTHERS[:1]):
-                        for tsrc in (("settimeout", "connect-option", "create_connection", "setdefaulttimeout") if other == OTHERS[0] else ("settimeout",)):
+                        for tsrc in (("settimeout", "connect-option", "create_connection", "setdefaulttimeout", "app") if other == OTHERS[0] else ("settimeout",)):
                             for fam in (("v4", "v6", "mixed") if tsrc == "settimeout" else ("v4",)):
                                 n += 1
                                 rec(guarded(addr_case, outs, user_opt, timeout, other, tsrc, fam), {"case": "addr", "args": [list(outs), user_opt, timeout, other, tsrc, fam]})
